@@ -593,6 +593,35 @@ def rejected_corpus():
     return r
 
 
+def _decision_inputs():
+    """Inputs whose accept/reject decision hinges on comparing cfg STRINGS (names_unique ids, Cfg::combine): the decision
+    must be the same in the library, the CLI and create_device! whatever token printer is in use (D19, D24).
+    name -> {syntax: text}"""
+    out = {}
+
+    def both(name, root_cfg, block_cfg, inner_cfg):
+        dsl = ("config { type RegisterAddressType = u8; }\n"
+               f"#[cfg({root_cfg})]\nregister Foo {{ const ADDRESS = 0; const SIZE_BITS = 8; }},\n"
+               f"#[cfg({block_cfg})]\nblock Bl {{\n    #[cfg({inner_cfg})]\n    register Foo {{ const ADDRESS = 1; const SIZE_BITS = 8; }}\n}}\n")
+        tree = {"config": {"register_address_type": "u8"},
+                "Foo": {"type": "register", "cfg": root_cfg, "address": 0, "size_bits": 8},
+                "Bl": {"type": "block", "cfg": block_cfg, "objects": {"Foo": {"type": "register", "cfg": inner_cfg, "address": 1, "size_bits": 8}}}}
+        out[name] = {"dsl": dsl, "json": json.dumps(tree, indent=1) + "\n", "yaml": _yaml(tree, ""), "toml": _toml(tree, [])}
+    both("cfg_conj_dup", "all(x, y)", "y", "x")                      # propagated all(x, y) == hand-written all(x, y): duplicates
+    both("cfg_conj_other_order", "all(y, x)", "y", "x")              # another order: another string, no duplicate
+    both("cfg_conj_spaced", "all( x ,y )", "y", "x")                 # spacing is not spelling
+    both("cfg_same_everywhere", "y", "y", "y")                       # combine of equal cfgs is that cfg
+    both("cfg_feature_spacing", 'feature="a"', 'feature = "a"', 'feature = "a"')
+    both("cfg_nested_conj", "all(all(x, y), z)", "z", "all(x, y)")
+    return out
+
+
+DECISION = _decision_inputs()
+# written down by hand: both objects named Foo exist in the same builds <=> duplicates <=> rejected (in EVERY syntax and caller)
+DECISION_EXPECT = {"cfg_conj_dup": "rejected", "cfg_conj_other_order": "accepted", "cfg_conj_spaced": "rejected",
+                   "cfg_same_everywhere": "rejected", "cfg_feature_spacing": "rejected", "cfg_nested_conj": "rejected"}
+
+
 RAW_REJECTED = {
     # name -> {syntax: text}; malformed at the text level
     "garbage": {"dsl": "register Foo { const ADDRESS = ; }\n", "json": "{ \"Foo\": { \"type\": \"register\", ",
